@@ -42,6 +42,7 @@ HIER = {
     'UnpackException': ['Exception'],
     'NotImplementedError': ['RuntimeError', 'Exception'],
     'RuntimeError': ['Exception'],
+    'RecursionError': ['RuntimeError', 'Exception'],
     'AssertionError': ['Exception'],
     'OSError': ['Exception'],
     'Fault': ['Exception'],
@@ -60,6 +61,30 @@ def catches(handler_name, exc):
     if e == 'binascii.Error' and h == 'Error' and 'binascii' in handler_name:
         return True
     return h in HIER.get(e, [])
+
+
+def _fallback_alias(mod, name):
+    """``name = <builtin exception>`` assigned in a module-level ``except
+    ImportError`` arm: the class the name denotes when the optional
+    dependency is absent (the stdlib configuration)."""
+    cache = getattr(mod, '_fallback_aliases', None)
+    if cache is None:
+        cache = {}
+        for st in mod.tree.body:
+            if not isinstance(st, ast.Try):
+                continue
+            for h in st.handlers:
+                for x in h.body:
+                    if isinstance(x, ast.Assign) and isinstance(
+                            x.value, ast.Name) and x.value.id in HIER:
+                        for t in x.targets:
+                            if isinstance(t, ast.Name):
+                                cache[t.id] = x.value.id
+        try:
+            mod._fallback_aliases = cache
+        except AttributeError:
+            pass
+    return cache.get(name)
 
 
 class _Handlers(list):
@@ -120,6 +145,61 @@ def named_groups(pattern):
         out[name] = pattern[k + 1:p - 1]
         i = k + 1
     return out
+
+
+def _digits_in_base(pattern, base):
+    """The pattern is made of punctuation literals and of character classes
+    (possibly repeated) that admit digits of ``base`` only, at least one."""
+    try:
+        import re._parser as sre_parse
+    except ImportError:                                  # pragma: no cover
+        import sre_parse
+    try:
+        items = list(sre_parse.parse(pattern))
+    except Exception:
+        return False
+    allowed = set('0123456789abcdefghijklmnopqrstuvwxyz'[:base])
+    allowed |= {c.upper() for c in allowed}
+    seen = [False]
+
+    def cls_ok(members):
+        for op, av in members:
+            name = str(op)
+            if name == 'LITERAL':
+                if chr(av) not in allowed:
+                    return False
+            elif name == 'RANGE':
+                if any(chr(c) not in allowed for c in range(av[0], av[1] + 1)):
+                    return False
+            elif name == 'CATEGORY':
+                if not (str(av) == 'CATEGORY_DIGIT' and base >= 10):
+                    return False
+            else:
+                return False
+        return True
+
+    def walk(its):
+        for op, av in its:
+            name = str(op)
+            if name == 'LITERAL':
+                if chr(av).isalnum():
+                    if chr(av) not in allowed:
+                        return False
+                    seen[0] = True
+            elif name == 'IN':
+                if not cls_ok(av):
+                    return False
+                seen[0] = True
+            elif name in ('MAX_REPEAT', 'MIN_REPEAT'):
+                if not walk(list(av[2])):
+                    return False
+            elif name == 'SUBPATTERN':
+                if not walk(list(av[-1])):
+                    return False
+            else:
+                return False
+        return True
+    return walk(items) and seen[0]
 
 
 def _digits_only(items, first=True):
@@ -335,6 +415,26 @@ class ExcFlow(object):
                         return []
                 return ['TypeError']
             return []
+        if nm == 'int' and isinstance(call.func, ast.Name) and \
+                len(call.args) == 2 and isinstance(
+                    call.args[1], ast.Constant) and isinstance(
+                    call.args[1].value, int) and not isinstance(
+                    call.args[0], ast.Constant):
+            # int(text, base): fine when the text was cut out by one of the
+            # module's compiled patterns that admits digits of that base only
+            base = call.args[1].value
+            pats = []
+            for x in ast.walk(f.node):
+                if isinstance(x, ast.Name) and x.id in f.module.consts:
+                    v = f.module.consts[x.id]
+                    if isinstance(v, ast.Call) and call_name(v) == 'compile' \
+                            and v.args and isinstance(v.args[0], ast.Constant) \
+                            and isinstance(v.args[0].value, str):
+                        pats.append(v.args[0].value)
+            if any(_digits_in_base(ptn, base) for ptn in pats):
+                self.stats['dropped_by_regex'] += 1
+                return []
+            return ['ValueError']
         if nm in ('int', 'float') and isinstance(call.func, ast.Name) and \
                 len(call.args) == 1:
             a = call.args[0]
@@ -507,7 +607,9 @@ class ExcFlow(object):
         if nm == 'loads' and (d.startswith('json.') or
                               target.startswith('json') or
                               target.startswith('simplejson')):
-            return ['JSONDecodeError']
+            # not only syntax errors: int literals over the digit limit are
+            # a plain ValueError, deep nesting is a RecursionError
+            return ['JSONDecodeError', 'ValueError', 'RecursionError']
         if nm in ('load', 'safe_load') and (d.startswith('yaml.') or
                                             target.startswith('yaml')):
             return ['YAMLError', 'UnicodeDecodeError']
@@ -635,6 +737,9 @@ class ExcFlow(object):
                     if mod is not None and isinstance(e, ast.Name):
                         nm = {'binascii.Error': 'binascii.Error'}.get(
                             mod.imports.get(e.id, ''), nm)
+                        # a compatibility alias bound in an import fallback
+                        # (``except ImportError: JSONDecodeError = ValueError``)
+                        nm = _fallback_alias(mod, e.id) or nm
                     full.append(nm)
                 for n in full:
                     if catches(n, exc):
